@@ -29,7 +29,7 @@ from crosshair.tracers import NoTracing
 
 OPTS = Options.defaults()
 OPTS.verbosity = -3
-LEN_DOC = tier(4, 5)
+LEN_DOC = tier(8, 10)
 
 
 # ------------------------------------------------------------------ K16a
@@ -37,7 +37,7 @@ LEN_DOC = tier(4, 5)
     parts=lambda: list(range(LEN_DOC + 1)),
     timeout=(200, 1200), cls="S", tracing="symbolic-through-pydoctor", twin="first",
     code=["pydoctor.astutils.extract_docstring_linenum", "pydoctor.astutils.extract_docstring"],
-    bounds={"quick": "docstring text: any string of <= 4 characters; line number and shift k: unbounded ints", "thorough": "<= 5 characters"},
+    bounds={"quick": "docstring text: any string of <= 8 characters; line number and shift k: unbounded ints", "thorough": "<= 10 characters"},
     outside="docstrings longer than the bound (the loop is per character and stops at the first non-blank one)",
 )
 def h_docstring_linenum(doc: str, lineno: int, k: int) -> bool:
@@ -58,8 +58,29 @@ def h_docstring_linenum(doc: str, lineno: int, k: int) -> bool:
     node2 = ast.Constant(value=doc)
     node2.lineno = lineno + k
     shifted = astutils.extract_docstring_linenum(node2)
+    return done(got == want and shifted == got + k)
+
+
+LEN_DOC2 = tier(3, 4)
+
+
+@harness(
+    parts=lambda: list(range(LEN_DOC2 + 1)),
+    timeout=(200, 1200), cls="S", tracing="symbolic-through-pydoctor", twin="first",
+    code=["pydoctor.astutils.extract_docstring (line number it returns; inspect.cleandoc and the surrogate check run symbolically)", "pydoctor.astutils.extract_docstring_linenum"],
+    bounds={"quick": "docstring text: any string of <= 3 characters; line number: unbounded int", "thorough": "<= 4 characters"},
+    outside="longer docstrings",
+)
+def h_extract_docstring_line(doc: str, lineno: int) -> bool:
+    """
+    pre: len(doc) == (PART if PART is not None else 2)
+    post: _
+    """
+    node = ast.Constant(value=doc)
+    node.lineno = lineno
+    got = astutils.extract_docstring_linenum(node)
     ln, text = astutils.extract_docstring(node)
-    return done(got == want and shifted == got + k and ln == got)
+    return done(ln == got)
 
 
 # ------------------------------------------------------------------ K16b
